@@ -42,6 +42,9 @@ if TYPE_CHECKING:
     from .expression import Expression
 
 
+# pest keeps repetition bounds in a u32.
+MAX_REPEAT = 0xFFFFFFFF
+
 PRECEDENCE_LOWEST = 1
 PRECEDENCE_CHOICE = 2
 PRECEDENCE_SEQUENCE = 3
@@ -287,24 +290,32 @@ class Parser:
             number = token
             if self.current().kind == TokenKind.RBRACE:
                 self.pos += 1
-                return RepeatExact(expr, self.parse_int(number))
+                return RepeatExact(expr, self.parse_number(number))
 
             self.eat(TokenKind.COMMA)
 
             if self.current().kind == TokenKind.RBRACE:
                 self.pos += 1
-                return RepeatMin(expr, self.parse_int(number))
+                return RepeatMin(expr, self.parse_number(number))
 
             stop = self.eat(TokenKind.NUMBER)
             self.eat(TokenKind.RBRACE)
-            return RepeatMinMax(expr, self.parse_int(number), self.parse_int(stop))
+            return RepeatMinMax(
+                expr, self.parse_number(number), self.parse_number(stop)
+            )
 
         if kind == TokenKind.COMMA:
             number = self.eat(TokenKind.NUMBER)
             self.eat(TokenKind.RBRACE)
-            return RepeatMax(expr, self.parse_int(number))
+            return RepeatMax(expr, self.parse_number(number))
 
         raise PestGrammarSyntaxError("expected a number or a comma", token=token)
+
+    def parse_number(self, token: Token) -> int:
+        number = self.parse_int(token)
+        if number > MAX_REPEAT:
+            raise PestGrammarSyntaxError("number cannot overflow u32", token=token)
+        return number
 
     def parse_int(self, token: Token) -> int:
         try:
